@@ -1,6 +1,6 @@
 """C01 — a server connection serves one client at a time, for a whole transaction."""
 from mirlib import *
-from common import cancelled_io_findings, release_gate
+from common import cancelled_io_findings, release_gate, whole_reply_findings, own_request_findings
 
 H = "pgcat::client::Client::handle::{closure#0}"
 ROUND_TRIPS = ("pgcat::client::Client::send_and_receive_loop", "pgcat::client::Client::receive_server_message")
@@ -206,6 +206,14 @@ def run(ctx):
                          "the connection would be released with the failed transaction open and the next client's statements run inside it" % (nm, "does not set in_transaction" if not got else "sets in_transaction to %s" % sorted(got)))
             other = sorted({n_ for n_, b_ in F.bodies.items() if not n_.startswith("bin:") and n_ != rv.name and not n_.endswith("Server::startup::{closure#0}") and any(proj_fields(st["lhs"])[-1:] == ["in_transaction"] for blk, i, st in b_.assigns())})
             r8.check(not other, "flag-writers", "in_transaction is written only by Server::recv", "in_transaction is also written by %s" % other)
+
+    # the flag is the status of the LAST request only if the connection is in step with its server: every reader of a server connection that
+    # can enter (or come back to) a pool takes whole replies - a prewarm / health-check / clean-up reply that is read in part answers the next
+    # client's BEGIN with `idle`, and the connection is released inside that client's transaction
+    for key, ok, okmsg, failmsg in whole_reply_findings(F):
+        r8.check(ok, "in-step:" + key, okmsg, failmsg + " - from then on the status byte pgcat sees belongs to the previous request: after a client's BEGIN the connection looks idle and is released inside the open transaction")
+    for key, ok, okmsg, failmsg in own_request_findings(F)[0]:
+        r8.check(ok, "in-step:" + key, okmsg, failmsg)
 
     # ---------------- R9 a connection abandoned between claim and check-in is not handed on
     r9 = ctx.rule("C01-R9", "a connection that a client claimed and left without a completed checkin_cleanup (any `?` exit of handle between checkout and check-in, a panic, a dropped future) is discarded by the pool: "
